@@ -80,11 +80,63 @@ VERUS = [dict(
         dict(name="route_row_shift", item="partition_range_indices", find="push(row_idx as u32)", replace="push((row_idx + 1) as u32)"),
     ],
 )]
+# ------------------------------------------------------------------------------------------
+# glue of the hash arm of BatchPartitioner::partition_iter: the statement sequence between the evaluation of the key
+# expressions and the bucket computation, extracted as a FRAGMENT (the statements are the repository text, the signature
+# lists the fragment's free variables).  What it decides: the buckets handed to partition_grouped_take are a function of
+# THIS batch's key hashes only (zeroed, correctly sized hash buffer; buckets emptied before they are filled).
+# ------------------------------------------------------------------------------------------
+VERUS.append(dict(
+    name="partition_iter_glue",
+    uses="use vstd::prelude::*;\n",
+    prelude="prelude_glue.rs", proofs=None, witness="witness_glue.rs", rlimit=30, min_verified=1, twins=[], std_specs=False,
+    items=[
+        dict(file=F, path=["impl BatchPartitioner", "fn partition_iter"], ret="r",
+             fragment=dict(name="hash_arm_fragment",
+                           start="let arrays =\n                        evaluate_expressions_to_arrays(exprs.as_slice(), &batch)?;",
+                           end="partition_reducer.partition_indices(hash_buffer, indices);",
+                           signature="fn hash_arm_fragment(exprs: &mut Vec<PhysicalExprRef>, partition_reducer: &mut StrengthReducedU64, hash_buffer: &mut Vec<u64>, indices: &mut Vec<Vec<u32>>, batch: RecordBatch) -> Result<()>",
+                           tail="Ok(())"),
+             edits=[dict(rule="R13", find="REPARTITION_RANDOM_STATE.random_state()", replace="repartition_random_state()"),
+                    dict(rule="R13", regex=r"for v in indices\.iter_mut\(\) \{\s*v\.clear\(\);\s*\}", replace="clear_all(indices);", count="any"),
+                    dict(rule="R3", find="partition_reducer.partition_indices(hash_buffer, indices);", replace="partition_reducer.partition_indices(hash_buffer.as_slice(), indices.as_mut_slice());")],
+             contract="""    requires
+        old(indices)@.len() >= 1, old(partition_reducer).divisor() == old(indices)@.len(), batch.rows() <= u32::MAX,
+    ensures
+        // every row of THIS batch, exactly once, in the bucket (key hash of the row) mod (number of outputs);
+        // nothing left over from earlier batches
+        r is Ok ==> final(indices)@.len() == old(indices)@.len()
+            && forall|p: int| 0 <= p < old(indices)@.len() ==>
+                (#[trigger] final(indices)@[p])@ == routed(key_hashes(old(exprs)@, batch), old(indices)@.len() as int, p, batch.rows() as int),"""),
+        dict(file=F, path=["impl BatchPartitioner", "fn partition_iter"], ret="r",
+             fragment=dict(name="range_arm_fragment",
+                           start="                        for v in indices.iter_mut() {\n                            v.clear();\n                        }\n\n                        Self::partition_range_indices(",
+                           end="partition_buffer,\n                            indices,\n                        )?;",
+                           signature="fn range_arm_fragment(arrays: Vec<ArrayRef>, split_points: &mut Vec<SplitPoint>, sort_options: &mut Vec<SortOptions>, partition_buffer: &mut Vec<ScalarValue>, indices: &mut Vec<Vec<u32>>) -> Result<()>",
+                           tail="Ok(())"),
+             edits=[dict(rule="R13", regex=r"for v in indices\.iter_mut\(\) \{\s*v\.clear\(\);\s*\}", replace="clear_all(indices);", count="any"),
+                    dict(rule="R3", find="Self::partition_range_indices(", replace="partition_range_indices(")],
+             contract="""    requires
+        strictly_sorted(old(split_points)@, old(sort_options)@), old(indices)@.len() == old(split_points)@.len() + 1, arrays_rows(arrays@) <= u32::MAX,
+    ensures
+        // every row of THIS batch, exactly once, in the bucket selected by the split points; nothing left over from earlier batches
+        r is Ok ==> final(indices)@.len() == old(indices)@.len()
+            && forall|p: int| 0 <= p < old(indices)@.len() ==>
+                (#[trigger] final(indices)@[p])@ == range_routed(arrays@, old(split_points)@, old(sort_options)@, p, arrays_rows(arrays@) as int),"""),
+    ],
+    mutants=[
+        dict(name="range_buckets_not_emptied", item="range_arm_fragment", find="clear_all(indices);", replace=""),
+        dict(name="hash_buffer_not_zeroed", item="hash_arm_fragment", find="hash_buffer.clear();", replace=""),
+        dict(name="buckets_not_emptied", item="hash_arm_fragment", find="clear_all(indices);", replace=""),
+        dict(name="hash_buffer_one_short", item="hash_arm_fragment", find="hash_buffer.resize(batch.num_rows(), 0);", replace="hash_buffer.resize(batch.num_rows() - 1, 0);"),
+    ],
+))
 KANI = [dict(package="datafusion-physical-plan", module="physical_plan/repartition.rs", timeout=900, harnesses=[
     dict(name="c10_range_partition_id_bounded", complete=False, bound="<= 5 split points (keys 1,3,5,7,9), row keys 0..=10; compare_rows stubbed by a total pre-order on row length",
          what="Kani twin of the Verus unit on the unextracted range_partition_id: result == number of split points <= row"),
 ])]
-TRUSTED = ["Verus 0.2026.09.13 + bundled Z3", "compare_rows abstracted as an uninterpreted comparison with assumed transitivity (cmp_trans)", "extract_row_at_idx_to_buf, SplitPoint::values, first().len() behind assumed contracts (Arrow)",
+TRUSTED = ["partition_iter_glue: ASSUMED contract of create_hashes (result is the key hash only for a zeroed buffer with one slot per row), the proved contracts of partition_indices (C11) and partition_range_indices restated in prelude_glue.rs, FRAGMENT extraction (free variables of the fragment typed in the unit)",
+           "Verus 0.2026.09.13 + bundled Z3", "compare_rows abstracted as an uninterpreted comparison with assumed transitivity (cmp_trans)", "extract_row_at_idx_to_buf, SplitPoint::values, first().len() behind assumed contracts (Arrow)",
            "rewrites R3 (Arc<dyn Array> -> ArrayRef), R13 (closure expression -> assumed prelude fn)"]
 ASSUMPTIONS = ["split points strictly increasing (enforced by validate_range_split_points at construction; not re-verified here)", "indices.len() == split_points.len()+1 (new_range_partitioner)", "batch rows <= u32::MAX",
                "on Err (row extraction / comparison failure) nothing is promised"]
